@@ -61,3 +61,29 @@ def run_laws(module, workers=4, timeout=900, cfg=None):
     r = tlc.run_tlc("MC_%s.tla" % module, cfg or ("MC_%s.cfg" % module), workers=workers, timeout=timeout)
     ok = "Model checking completed. No error has been found." in r["out"]
     return ok, {"law_states": r["distinct"], "law_wall_s": round(r["wall"], 2)}, r["out"][-2500:]
+
+
+def run_proofs(module, timeout=900):
+    """TLAPS (tlapm) on spec/proofs/<module>.tla: unbounded proofs of laws that TLC checks for small values only.
+    Returns (all obligations proved?, {"obligations": n, "proof_wall_s": s}, tail).  The proof files are copied to a
+    scratch directory (tlapm writes its cache next to them)."""
+    import shutil
+    import subprocess
+    import time
+    from common import RUN
+    wd = os.path.join(RUN, "proofs-" + module)
+    shutil.rmtree(wd, ignore_errors=True)
+    os.makedirs(wd)
+    shutil.copy(os.path.join(tlc.SPEC, "proofs", module + ".tla"), wd)
+    t0 = time.time()
+    try:
+        p = subprocess.run(["tlapm", "-I", tlc.SPEC, "--toolbox", "0", "0", "--cleanfp", module + ".tla"], cwd=wd, stdout=subprocess.PIPE,
+                           stderr=subprocess.STDOUT, text=True, timeout=timeout)
+        out = p.stdout
+    except subprocess.TimeoutExpired as ex:
+        out = (ex.stdout or "") if isinstance(ex.stdout, str) else ""
+        out += "\n(tlapm timed out)"
+    import re
+    m = re.search(r"All (\d+) obligations? proved", out)
+    shutil.rmtree(wd, ignore_errors=True)
+    return bool(m), {"obligations": int(m.group(1)) if m else 0, "proof_wall_s": round(time.time() - t0, 1)}, out[-1500:]
